@@ -110,7 +110,42 @@ def execute_tour(name, labs, conc_seed, workdir, descs):
     return tr
 
 
+class _Merged:
+    """summary of several TLC runs"""
+
+    def __init__(self):
+        self.distinct = self.generated = self.depth = 0
+        self.wall = 0.0
+        self.out = ""
+        self.coverage = {}
+
+    def add(self, r):
+        self.distinct += r.distinct
+        self.generated += r.generated
+        self.depth = max(self.depth, r.depth)
+        self.wall += r.wall
+
+    def summary(self):
+        return dict(states=self.distinct, transitions=self.generated, depth=self.depth, wall_s=round(self.wall, 2))
+
+
+CHUNK = 250   # traces per TLC run (the Json module holds the whole file in memory)
+
+
 def validate(traces, workers=8):
+    """all traces judged by TLC, in chunks"""
+    if len(traces) <= CHUNK:
+        return validate_chunk(traces, workers)
+    merged, best = _Merged(), {}
+    for a in range(0, len(traces), CHUNK):
+        res, b = validate_chunk(traces[a:a + CHUNK], workers)
+        merged.add(res)
+        for tid, v in b.items():
+            best[a + tid] = v
+    return merged, best
+
+
+def validate_chunk(traces, workers=8):
     """TLC judges the traces; returns (tlc result, {tid: [[step, clause], ...]}) choosing
     for every trace the candidate object history (branch) with the fewest clauses."""
     tf = os.path.join(common.scratch(), f"traces-{time.time_ns()}.json")
